@@ -108,7 +108,7 @@ func cmdCheck(args []string) int {
 	pkgSet := map[string]bool{}
 	var mine []*Contract
 	for _, c := range ss.Contracts {
-		if c.HasProp(prop) && strings.HasPrefix(c.Pkg, modPath) && c.Flags["trusted"] == "" {
+		if c.HasProp(prop) && c.Flags["trusted"] == "" {
 			if *only != "" && !strings.Contains(c.Key(), *only) {
 				continue
 			}
@@ -237,6 +237,10 @@ func cmdCheck(args []string) int {
 					}
 				}
 				if isKnown {
+					// a listed finding is reported, not counted among the obligations this run claims
+					ev.Coverage.Obligations--
+					fe.Obligations--
+					byKind[o.Kind]--
 					continue
 				}
 				confirmed := false
@@ -255,6 +259,12 @@ func cmdCheck(args []string) int {
 		}
 		for _, h := range r.Havocked {
 			ev.addAssumption("call with unknown effects (everything reachable havocked): " + h)
+		}
+	}
+	if *verbose {
+		sort.Slice(all, func(i, j int) bool { return all[i].TimeS > all[j].TimeS })
+		for i := 0; i < 8 && i < len(all); i++ {
+			fmt.Printf("slow: %.2fs %s %s %s\n", all[i].TimeS, all[i].Status, all[i].Solver, all[i].Name)
 		}
 	}
 	ev.Coverage.ObligationsByKind = byKind
